@@ -1077,8 +1077,12 @@ def oracle_C14(ctx, i):
             # third-party images that carry a known type number with a body of another shape)
             plain = all(l["k"] not in ("unknown", "custom") or variant_of(l) == "unknown" for l in leaves)
             if plain:
-                if I.get("rt.n") != str(len(leaves)):
-                    out.append(f"parsing back yields {I.get('rt.n')} packets for {len(leaves)} members")
+                # iteration ends with the first member that does not parse on its own (e.g. an SDES
+                # item of type 0, which the builder accepts and the wire format cannot carry)
+                bad = [j for j in range(len(leaves)) if I.get(f"rt.p{j}.res", "ok") != "ok"]
+                exp_n = bad[0] + 1 if bad else len(leaves)
+                if I.get("rt.n") != str(exp_n):
+                    out.append(f"parsing back yields {I.get('rt.n')} packets for {len(leaves)} members" + (f" (member {bad[0]} does not parse: {I.get(f'rt.p{bad[0]}.res')})" if bad else ""))
                 for j, l in enumerate(leaves):
                     if I.get(f"rt.p{j}.res") not in ("ok", None) or j >= int(I.get("rt.n", "0") or 0): continue
                     if I.get(f"rt.p{j}.variant") != variant_of(l):
